@@ -3,7 +3,9 @@
    (any number, any Stop style, any exit behaviour), every schedule, every reload history and any
    number of concurrent Reload()/Stop() callers: [reach P s] = "s is reached by some label list". *)
 From Coq Require Import List NArith Bool.
-From GS Require Import Errs LTS Composite CompositeMon CompositeBase CompositeC10.
+From GS Require Import Errs LTS Composite CompositeMon CompositeBase CompositeC10 CompositeC11
+     CompositeLocks CompositeLive CompositeC09 CompositeProgress CompositeProto CompositeC10b
+     CompositeMonLink.
 Import ListNotations.
 
 (* nil and cancellation exits never reach the error channel (C10_benign): every queued value is
@@ -54,6 +56,41 @@ Theorem C10_failed_only_if : forall P s r x, reach P s ->
   exists e, took s = Some e /\ exists y, e = Wrap y /\ is_cancel y = false.
 Proof. exact failed_only_if_took. Qed.
 
+(* C10 liveness (as no-stuck-state, repaired code, children that behave like the bundled runnables):
+   once Run() has taken a failure it is never stuck before it has returned - in every reachable state
+   of every guarded schedule some non-environment label is enabled, unless a blocking child Stop()
+   was overtaken by a new Run of the same child (see C09_live_partial) *)
+Theorem C10_run_returns : forall P s e,
+  fix_c09 P = true -> good_pool P -> good_children P ->
+  greach P s -> ~ overtaken P s -> took s = Some e -> (forall r, runt s <> TDone r) ->
+  exists l s', env_label l = false /\ step P s l = Some s'.
+Proof. exact run_returns_after_failure. Qed.
+
+(* "all other children are stopped": Run's stopAllRunnables addresses exactly the entries of the
+   configuration it reads, last first ... *)
+Theorem C10_teardown_targets : forall P s s',
+  step P s (LStopBegin ORun) = Some s' -> wof ORun s = [] ->
+  map w_child (wof ORun s') = map fst (rev (entries_of s)).
+Proof. exact teardown_spawn. Qed.
+
+Theorem C10_no_worker_before_teardown : forall P s,
+  reach P s -> t_spawned (runt s) = false -> wof ORun s = [].
+Proof. exact no_worker_before_teardown. Qed.
+
+(* ... every Stop() it issued has returned before Run() leaves stopAllRunnables (hence before it
+   returns) ... *)
+Theorem C10_others_stopped : forall P s,
+  reach P s -> t_joined (runt s) = true -> forallb wdone (wof ORun s) = true.
+Proof. exact others_stopped. Qed.
+
+(* ... and on the failure path, from the moment Run() holds reloadMu (repaired code) no Reload() is -
+   or ever gets - inside its critical section, so that configuration is the final one (and by
+   C09_exact its entries are the running children) *)
+Theorem C10_no_reload_after_lock : forall P s,
+  reach P s -> fix_c09 P = true -> took s <> None -> after_lock (runt s) = true ->
+  count_r inside (reloaders s) = 0.
+Proof. exact quiet_after_failure. Qed.
+
 (* every trace the acceptor accepts is the observable trace of a schedule of this model, so the
    theorems above cover every accepted implementation trace *)
 Theorem C10_accepted_traces_are_model_traces : forall P fuel tr s,
@@ -61,6 +98,22 @@ Theorem C10_accepted_traces_are_model_traces : forall P fuel tr s,
   exists ls, run (step P) init ls = Some s /\ obs_trace obs ls = tr.
 Proof. exact accept_sound. Qed.
 
+(* the monitor is the theorem evaluated on a trace: on the observable trace of ANY schedule of the
+   model, if every child exit is nil or a cancellation error then Run()'s result (if present) does not
+   wrap ErrRunnableFailed - clause 1 of the executable predicate C10_holdsb never fires on a model
+   trace, hence (accept_sound) never on an accepted implementation trace unless the property fails *)
+Theorem C10_monitor_benign_link : forall P ls s,
+  run (step P) init ls = Some s ->
+  existsb is_fail_exit (obs_trace obs ls) = false ->
+  forall r, run_result (obs_trace obs ls) = Some r -> rc_failed r = false.
+Proof. exact c10_clause1_link. Qed.
+
+Theorem C10_monitor_never_clause1 : forall P ls s,
+  run (step P) init ls = Some s -> C10_holdsb P (obs_trace obs ls) <> 1%N.
+Proof. exact c10_holdsb_not_1. Qed.
+
+Print Assumptions C10_monitor_benign_link.
+Print Assumptions C10_monitor_never_clause1.
 Print Assumptions C10_benign.
 Print Assumptions C10_benign_step.
 Print Assumptions C10_failure_step.
@@ -69,6 +122,11 @@ Print Assumptions C10_select_enabled.
 Print Assumptions C10_propagates.
 Print Assumptions C10_failed_only_if.
 Print Assumptions C10_accepted_traces_are_model_traces.
+Print Assumptions C10_run_returns.
+Print Assumptions C10_teardown_targets.
+Print Assumptions C10_no_worker_before_teardown.
+Print Assumptions C10_others_stopped.
+Print Assumptions C10_no_reload_after_lock.
 
 (* non-vacuity: a schedule in which the second child, added by a growth reload beyond the initial
    channel capacity, fails; Run() takes the failure and returns ErrRunnableFailed joined with it *)
